@@ -2,7 +2,10 @@ import RModel.Gen.SignalHandlers
 /-
   L5 (process level): `renamify-cli/src/main.rs::main` with signal delivery.
 
-      install handlers ; auto-init ; COMMAND ; if interrupted { exit 130 } ; match result { Ok → 0 | Err → 1..3 }
+      install handlers ; auto-init ; COMMAND ; flag := interrupted ;
+      match result { Ok → if flag { exit 130 } else 0 | Err → 1..3 }
+  (where the flag is consulted is the generated `Gen.SignalHandlers.flagScope`; before commit 279b830 it was tested
+  before the result was looked at, so 130 also replaced a failure status.)
 
   The command is a *program*: a list of steps, each either one effect on the world (a mutating
   filesystem call — the world and the meaning of an effect are parameters) or the begin / end of the
@@ -13,7 +16,8 @@ import RModel.Gen.SignalHandlers
   A *run* is the program with signal events inserted at arbitrary positions: `erase run = program`.
   What a signal event does is the generated description of the handler body
   (`Gen.SignalHandlers.sigint / sigterm`): store the flag, or `process::exit(c)` — at once, without
-  unwinding, so nothing after it happens and no `Drop` (lock release) runs.
+  unwinding, so nothing after it happens and no `Drop` runs; a handler that `releasesLocks` calls
+  `lock::release_held_locks()` first (parameter `rel` of the model: what that does to the world).
   The event is "the handler body runs": for SIGINT that is on ctrlc's helper thread, some time after the
   kernel delivered the signal; if the process ends before that thread is scheduled the event is absent.
 
@@ -52,38 +56,47 @@ structure St (ω : Type) where
   exited : Option Nat := none
   deriving Repr
 
+/-- the world after an exit inside handler `h`: the held locks are released first if the handler does that -/
+def exitWorld (rel : ω → ω) (h : Handler) (w : ω) : ω := if h.releasesLocks then rel w else w
+
 /-- what the handler body does in state (flag, prompt): exit code, or the new flag value -/
-def handle (h : Handler) (st : St ω) : St ω :=
+def handle (rel : ω → ω) (h : Handler) (st : St ω) : St ω :=
   match h.exitAlways with
   | some c => { st with exited := some c }
   | none =>
     match (if st.prompt then h.exitUnderPrompt else none) with
-    | some c => { st with exited := some c }
+    | some c => { st with exited := some c, world := exitWorld rel h st.world }
     | none => if h.setsFlag then { st with flag := true } else st
 
-def step (H : Handlers) (ap : ε → ω → ω) (st : St ω) (it : Item ε) : St ω :=
+def step (H : Handlers) (ap : ε → ω → ω) (rel : ω → ω) (st : St ω) (it : Item ε) : St ω :=
   if st.exited.isSome then st else
   match it with
   | .eff e => { st with world := ap e st.world }
   | .promptOn => { st with prompt := true }
   | .promptOff => { st with prompt := false }
-  | .sig s => handle (H s) st
+  | .sig s => handle rel (H s) st
 
-def runFrom (H : Handlers) (ap : ε → ω → ω) (st : St ω) (items : List (Item ε)) : St ω :=
-  items.foldl (step H ap) st
+def runFrom (H : Handlers) (ap : ε → ω → ω) (rel : ω → ω) (st : St ω) (items : List (Item ε)) : St ω :=
+  items.foldl (step H ap rel) st
 
-def run (H : Handlers) (ap : ε → ω → ω) (w : ω) (items : List (Item ε)) : St ω :=
-  runFrom H ap { world := w } items
+def run (H : Handlers) (ap : ε → ω → ω) (rel : ω → ω) (w : ω) (items : List (Item ε)) : St ω :=
+  runFrom H ap rel { world := w } items
 
-/-- the tail of `main`: flag check (if present and placed before the result match), then the result -/
-def status (flagChecked : Bool) (code : Nat) (res : Nat) (st : St ω) : Nat :=
+abbrev FlagScope := Gen.SignalHandlers.FlagScope
+
+/-- the tail of `main`: an exit inside a handler wins; otherwise the flag turns the status into `code` for every
+    result (`all`), only for a successful command (`okOnly`), or never (`none`) -/
+def status (scope : FlagScope) (code : Nat) (res : Nat) (st : St ω) : Nat :=
   match st.exited with
   | some c => c
-  | none => if flagChecked && st.flag then code else res
+  | none =>
+    match scope with
+    | .all => if st.flag then code else res
+    | .okOnly => if st.flag && res == 0 then code else res
+    | .none => res
 
 def genStatus (res : Nat) (st : St ω) : Nat :=
-  status (Gen.SignalHandlers.flagCheckAfterCommand && Gen.SignalHandlers.flagCheckBeforeResultMatch)
-    Gen.SignalHandlers.interruptExitCode res st
+  status Gen.SignalHandlers.flagScope Gen.SignalHandlers.interruptExitCode res st
 
 def isSig : Item ε → Bool
   | .sig _ => true
@@ -111,7 +124,7 @@ def applyAll (ap : ε → ω → ω) (w : ω) (es : List ε) : ω := es.foldl (f
 inductive Eff where
   | lockCreate     -- `open(O_EXCL)` of .renamify/renamify.lock
   | lockRemove     -- `unlink` of the lock (LockFile::drop)
-  | user (n : Nat) -- a call that changes the user tree (n identifies it)
+  | user (n : Nat) -- a call that changes the user tree (n identifies it); the transient probe directory is `other`
   | other          -- any other call below .renamify (log, backup, history, plan)
   | history        -- the write of history.json
   deriving DecidableEq, Repr
@@ -131,6 +144,14 @@ def apEff (e : Eff) (w : World) : World :=
   | .user n => { w with user := w.user ++ [n], calls := w.calls + 1 }
   | .other => { w with calls := w.calls + 1 }
   | .history => { w with history := w.history + 1, calls := w.calls + 1 }
+
+/-- `lock::release_held_locks()`: the lock file, if this process holds one, is unlinked (one more traced call) -/
+def relWorld (w : World) : World := if w.lock then { w with lock := false, calls := w.calls + 1 } else w
+
+/-- the handlers and the flag test as they were before commits d01db83 / 279b830 (for the before-fix theorems) -/
+def oldHandlers : Handlers
+  | .int => { setsFlag := true, exitUnderPrompt := some 130, exitAlways := none, releasesLocks := false, otherCalls := 0 }
+  | .term => { setsFlag := true, exitUnderPrompt := none, exitAlways := none, releasesLocks := false, otherCalls := 0 }
 
 /-- insert `rep` deliveries of `s` immediately before position `k` of a program -/
 def deliverAt (prog : List (Item ε)) (k : Nat) (s : Sig) (rep : Nat) : List (Item ε) :=
